@@ -1667,7 +1667,7 @@ class SolverCases(CaseTable):
         source_system = get_source_system(iteration_coordinate)
 
         system_solve = source_system.split('.')[-1] + '._solve_nonlinear'
-        system_coord_len = iteration_coordinate.index(system_solve) + len(system_solve)
+        system_coord_len = iteration_coordinate.rindex(system_solve) + len(system_solve)
         system_coord_nodes = len(iteration_coordinate[:system_coord_len].split('|')) + 1
         num_coord_nodes = iteration_coordinate.count('|') + 1
 
